@@ -71,6 +71,7 @@ def configs(max_idle):
         "ka_change": st.one_of(st.none(), st.tuples(st.floats(0.1, 0.9), ka).map(list)),   # client keep-alive changed mid-idle
         "cut_replay": st.booleans(),    # after the cut, stale copies of the peer's last datagrams keep arriving
         "bystander": st.booleans(),     # a second, idle client that must stay up whatever happens to the first
+        "cb_raises": st.sampled_from([False, False, True]),   # the application's connect callback raises (after noting the result)
     })
 
 
@@ -189,7 +190,7 @@ def idle_body(ctx, c):
             st_.run(1.0, until=lambda: by.connected() and by.laddr in w.ctxt.connections)
         ch = w.add_client()
         apply_setters(ch, c, "before", errors)
-        ch.connect()
+        ch.connect(raises=c.get("cb_raises", False))
         apply_setters(ch, c, "after", errors)
         ok = st_.run(3.0, until=lambda: ch.connected() and ch.laddr in w.ctxt.connections)
         if by is not None and not (by.connected() and by.laddr in w.ctxt.connections):
@@ -348,6 +349,7 @@ unanswered = st.fixed_dictionaries({
     "s_temp": st.one_of(st.none(), st.sampled_from([0.5, 1.0, 3.0])),
     "late": st.booleans(),
     "again": st.one_of(st.none(), st.sampled_from([0.4, 1.5, 3.0])),     # after the first attempt ended: set this timeout, connect() again
+    "cb_raises": st.sampled_from([False, False, True]),   # the application's connect callback raises (after noting the result)
 })
 
 
@@ -383,7 +385,7 @@ def unanswered_body(ctx, c):
                 except Exception as e:
                     errors.append("setConnectionTimeout(%r) %s connect() raised %s: %s" % (c["timeout"], when, type(e).__name__, e))
         setter("before")
-        ch.connect(callback=c["callback"])
+        ch.connect(callback=c["callback"], raises=c.get("cb_raises", False))
         t_hello = w.clock.t
         setter("after")
         if errors:
@@ -419,7 +421,7 @@ def unanswered_body(ctx, c):
             except Exception as e:
                 ctx.violation("setter-raises", "setConnectionTimeout(%r) between two attempts raised %s: %s" % (T2, type(e).__name__, e))
             n_log = len(ch.status_log)
-            ch.connect(callback=c["callback"])
+            ch.connect(callback=c["callback"], raises=c.get("cb_raises", False))
             t_hello2 = w.clock.t
             t_end2 = w.clock.t + T2 + 1.0
             while w.clock.t < t_end2:
